@@ -20,9 +20,9 @@ type nhBFSStats struct {
 // nhExplore runs a breadth-first search over event histories of the node
 // harness: successor = fresh node + replay of the history + one more event,
 // states matched by the harness-visible state key returned by the worker.
-func nhExplore(r *ev.Run, prop, check string, scenario int, alphabet []nhEvent, depth int, maxTransitions int, st *nhBFSStats) {
+func nhExplore(r *ev.Run, prop, check string, scenario int, prefix []nhEvent, alphabet []nhEvent, depth int, maxTransitions int, st *nhBFSStats) {
 	type node struct{ trace []nhEvent }
-	frontier := []node{{}}
+	frontier := []node{{append([]nhEvent(nil), prefix...)}}
 	seen := map[string]bool{}
 	outs := map[string]bool{}
 	var mu sync.Mutex
